@@ -392,6 +392,32 @@ def check_ref(case):
                         if len(viol) < 25:
                             viol.append({"kind": "entry-points-disagree", "detail": {"expression": e, "txn": ti, "reference_value": rv, "engine_matched": m},
                                          "case": {"kind": "ref", "exprs": case["exprs"]}})
+                # ... and so must the path a statement row takes: the same one-rule file loaded from disk the way `tally up` loads it, the
+                # row classified by normalize_merchant (which receives the description exactly as the statement has it)
+                from mc.checks import rules_common as R
+                from tally.merchant_utils import normalize_merchant
+                path = R.write_scratch("c04.rules", f"threshold = 100\ntagname = \"UBER\"\n[R]\nmatch: {e}\ncategory: C\n")
+                try:
+                    rules, transforms = R.load_path(path)
+                except Exception:  # noqa
+                    rules = None
+                if rules is not None:
+                    for ti, t in enumerate(TXNS):
+                        rk, rv = ref_eval(e, t)
+                        if rk != "ok":
+                            continue
+                        evals += 1
+                        try:
+                            got = normalize_merchant(t["description"], rules, amount=t["amount"], txn_date=t["date"],
+                                                     field=dict(t["field"]) if t["field"] is not None else None, data_source=t["source"],
+                                                     transforms=transforms, data_sources=copy.deepcopy(ORDERS))[1] == "C"
+                        except Exception as ex:  # noqa
+                            got = f"{type(ex).__name__}"
+                        if got != bool(rv[1]):
+                            outcomes.add("MISMATCH")
+                            if len(viol) < 25:
+                                viol.append({"kind": "entry-points-disagree", "detail": {"expression": e, "txn": ti, "reference_value": rv, "normalize_merchant_matched": got},
+                                             "case": {"kind": "ref", "exprs": case["exprs"]}})
         if any(w in e.lower() for w in _NEEDS_ENV):
             continue
         # second pass over all transactions without variables / sources (one expression, many transactions in a row)
